@@ -736,6 +736,7 @@ func gen(seed uint64, tier string) {
 	// vproto.NewRng(s) and NewRng(s+1) are the same splitmix stream shifted by one step, so the
 	// stream is re-seeded from a hashed output to make different seeds independent.
 	r := vproto.NewRng(vproto.NewRng(seed).U64())
+	genHist(w, r, tier)
 	genBatches(w, r, tier)
 	genWKB(w, r, tier)
 	genJSON(w, r, tier)
